@@ -329,22 +329,33 @@ Proof.
   rewrite N.ltb_antisym. reflexivity.
 Qed.
 
+Lemma started_iff : forall i,
+  started i = true <-> i_file i = FExec /\ i_deadline i <> Some 0.
+Proof.
+  intros i. unfold started, ctx_done_at_call.
+  destruct (i_file i); try (split; [discriminate | intros [H _]; discriminate H]).
+  destruct (i_deadline i) as [[|p]|]; cbn.
+  - split; [discriminate | intros [_ H]; now elim H].
+  - split; [intros _; split; [reflexivity | discriminate] | reflexivity].
+  - split; [intros _; split; [reflexivity | discriminate] | reflexivity].
+Qed.
+
 Lemma stderr_result_not_ok : forall e, stderr_result e <> ROk.
 Proof.
   intros [|c m md]; cbn; [discriminate|].
-  destruct (String.eqb c "" && String.eqb m "" && md); discriminate.
+  destruct (String.eqb c "" && String.eqb m "" && is_none md); discriminate.
 Qed.
 
 (* an error of the executor never becomes a success *)
 Lemma exec_failed_not_ok : forall i, exec_failed i = true -> run_result i <> ROk.
 Proof.
   intros i H. unfold run_result. rewrite H.
-  destruct (N.min (i_stderr_len i) cap =? 0); [discriminate | apply stderr_result_not_ok].
+  destruct (captured_stderr i =? 0); [discriminate | apply stderr_result_not_ok].
 Qed.
 
 (* exact characterisation of success *)
 Definition success_cond (i : pinput) : Prop :=
-  i_file i = FExec /\ proc_killed i = false /\ i_exit i = 0
+  started i = true /\ proc_killed i = false /\ i_exit i = 0
   /\ i_stdout_len i <= cap /\ i_stderr_len i <= cap
   /\ io_expired (host_of i) (beh_of i) = false
   /\ exists m, i_stdout i = SGood m
@@ -352,16 +363,15 @@ Definition success_cond (i : pinput) : Prop :=
 
 Lemma exec_failed_false_iff : forall i,
   exec_failed i = false <->
-  i_file i = FExec /\ proc_killed i = false /\ i_exit i = 0
+  started i = true /\ proc_killed i = false /\ i_exit i = 0
   /\ i_stdout_len i <= cap /\ i_stderr_len i <= cap
   /\ io_expired (host_of i) (beh_of i) = false.
 Proof.
   intros i. unfold exec_failed, proc_killed.
-  rewrite !orb_false_iff, negb_false_iff, N.eqb_eq, !N.ltb_ge.
+  rewrite !orb_false_iff, !negb_false_iff, N.eqb_eq, !N.ltb_ge.
   split.
-  - intros (((((Hf & Hk) & He) & Ho) & Hs) & Hio).
-    repeat split; try assumption. destruct (i_file i); try discriminate; reflexivity.
-  - intros (Hf & Hk & He & Ho & Hs & Hio). rewrite Hf. repeat split; assumption.
+  - intros (((((Hf & Hk) & He) & Ho) & Hs) & Hio). repeat split; assumption.
+  - intros (Hf & Hk & He & Ho & Hs & Hio). repeat split; assumption.
 Qed.
 
 Lemma run_ok_iff : forall i, run_result i = ROk <-> success_cond i.
@@ -391,21 +401,26 @@ Lemma model_p_result : forall i,
   p_result (model_p i) = match i_file i with FMissing | FDir => RNew | _ => run_result i end.
 Proof. intros i. unfold model_p. destruct (i_file i); reflexivity. Qed.
 
+Lemma model_p_argv : forall i,
+  p_argv (model_p i) = if started i then Some (cmd_arg (i_cmd i)) else None.
+Proof. intros i. unfold model_p, started. destruct (i_file i); reflexivity. Qed.
+
 Lemma model_ok_iff : forall i, p_result (model_p i) = ROk <-> success_cond i.
 Proof.
   intros i. rewrite model_p_result. destruct (i_file i) eqn:Hf.
   - apply run_ok_iff.
   - apply run_ok_iff.
-  - split; [discriminate|]. intros (H & _). rewrite Hf in H. discriminate.
-  - split; [discriminate|]. intros (H & _). rewrite Hf in H. discriminate.
+  - split; [discriminate|]. intros (H & _). apply started_iff in H as [H _]. rewrite Hf in H. discriminate.
+  - split; [discriminate|]. intros (H & _). apply started_iff in H as [H _]. rewrite Hf in H. discriminate.
 Qed.
 
 (* the property's wording: success only if ... *)
 Lemma success_only : forall i,
   p_result (model_p i) = ROk ->
   i_file i = FExec /\ i_exit i = 0
-  /\ (forall d, i_deadline i = Some d -> i_sleep i <= d)
+  /\ (forall d, i_deadline i = Some d -> i_sleep i <= d /\ d <> 0)
   /\ i_stdout_len i <= cap
+  /\ p_argv (model_p i) = Some (cmd_arg (i_cmd i))
   /\ exists m, i_stdout i = SGood m
      /\ (i_cmd i = GetMetadata ->
          m_name m <> "" /\ m_desc m <> "" /\ m_ver m <> "" /\ m_url m <> ""
@@ -413,9 +428,12 @@ Lemma success_only : forall i,
          /\ m_name m = i_name i).
 Proof.
   intros i H. apply model_ok_iff in H as (Hf & Hk & He & Ho & Hs & Hio & m & Hm & Hmeta).
+  pose proof Hf as Hst. apply started_iff in Hf as [Hf Hd0].
   repeat (split; [assumption|]). split.
-  - intros d Hd. rewrite proc_killed_eq, Hd in Hk. apply N.ltb_ge in Hk. exact Hk.
-  - split; [assumption|]. exists m. split; [assumption|]. intros Hc.
+  - intros d Hd. rewrite proc_killed_eq, Hd in Hk. apply N.ltb_ge in Hk. split; [exact Hk|].
+    intros ->. now elim Hd0.
+  - split; [assumption|]. split; [rewrite model_p_argv, Hst; reflexivity|].
+    exists m. split; [assumption|]. intros Hc.
     destruct (Hmeta Hc) as [(H1 & H2 & H3 & H4 & H5 & H6 & H7) H8]. tauto.
 Qed.
 
@@ -423,40 +441,56 @@ Qed.
 Lemma failing_exec_failed : forall i, failing i = true -> exec_failed i = true.
 Proof.
   intros i H. unfold failing in H. unfold exec_failed.
-  fold (proc_killed i). rewrite proc_killed_eq.
-  apply orb_true_iff in H as [H|H]; [apply orb_true_iff in H as [H|H]|]; rewrite H;
-    rewrite ?orb_true_r; reflexivity.
+  fold (proc_killed i). rewrite proc_killed_eq. unfold started.
+  apply orb_true_iff in H as [H|H]; [apply orb_true_iff in H as [H|H]; [apply orb_true_iff in H as [H|H]|]|].
+  - destruct (i_file i); try discriminate; reflexivity.
+  - rewrite H. destruct (i_file i); reflexivity.
+  - rewrite H. rewrite ?orb_true_r. reflexivity.
+  - rewrite H. rewrite ?orb_true_r. reflexivity.
 Qed.
 
 (* error kinds of a failing process *)
-Definition captured_stderr (i : pinput) : N := N.min (i_stderr_len i) cap.
+Definition structured (e : serr) (code msg : string) (md : option amap) : Prop :=
+  e = EJson code msg md /\ (code <> "" \/ msg <> "" \/ md <> None).
 
-Definition structured (e : serr) (code msg : string) : Prop :=
-  exists md, e = EJson code msg md /\ (code <> "" \/ msg <> "" \/ md = false).
+Lemma incomplete_false : forall code msg (md : option amap),
+  (code <> "" \/ msg <> "" \/ md <> None) ->
+  String.eqb code "" && String.eqb msg "" && is_none md = false.
+Proof.
+  intros code msg md H.
+  destruct (String.eqb_spec code ""); destruct (String.eqb_spec msg ""); destruct md; cbn; try reflexivity.
+  destruct H as [?|[?|?]]; congruence.
+Qed.
+
+Lemma incomplete_true : forall code msg (md : option amap),
+  String.eqb code "" && String.eqb msg "" && is_none md = true -> code = "" /\ msg = "" /\ md = None.
+Proof.
+  intros code msg md H. apply andb_true_iff in H as [H H3]. apply andb_true_iff in H as [H1 H2].
+  apply String.eqb_eq in H1, H2. destruct md; [discriminate|]. tauto.
+Qed.
 
 Lemma error_kind : forall i,
   (i_file i = FExec \/ i_file i = FNoExec) -> exec_failed i = true ->
   (captured_stderr i = 0 -> p_result (model_p i) = RExec)
-  /\ (forall code msg, captured_stderr i <> 0 -> structured (i_stderr i) code msg ->
-        p_result (model_p i) = RReq code msg)
-  /\ (captured_stderr i <> 0 -> (forall code msg, ~ structured (i_stderr i) code msg) ->
+  /\ (forall code msg md, captured_stderr i <> 0 -> structured (i_stderr i) code msg md ->
+        p_result (model_p i) = RReq code msg md)
+  /\ (captured_stderr i <> 0 -> (forall code msg md, ~ structured (i_stderr i) code msg md) ->
         p_result (model_p i) = RMalformed 0).
 Proof.
   intros i Hfile Hf. rewrite model_p_result.
   replace (match i_file i with FMissing | FDir => RNew | _ => run_result i end) with (run_result i)
     by (destruct Hfile as [-> | ->]; reflexivity).
-  unfold run_result, captured_stderr. rewrite Hf.
+  unfold run_result. rewrite Hf.
   repeat split.
   - intros H0. rewrite H0. reflexivity.
-  - intros code msg Hne (md & He & Hsome).
-    apply N.eqb_neq in Hne. rewrite Hne, He. cbn.
-    destruct (String.eqb_spec code ""); destruct (String.eqb_spec msg ""); destruct md; cbn;
-      try reflexivity.
-    destruct Hsome as [?|[?|?]]; congruence.
+  - intros code msg md Hne (He & Hsome).
+    apply N.eqb_neq in Hne. rewrite Hne, He. cbn. now rewrite incomplete_false.
   - intros Hne Hno. apply N.eqb_neq in Hne. rewrite Hne.
     destruct (i_stderr i) as [|code msg md] eqn:He; [reflexivity|]. cbn.
-    destruct (String.eqb_spec code ""); destruct (String.eqb_spec msg ""); destruct md; cbn;
-      try reflexivity; exfalso; apply (Hno code msg); eexists; (split; [reflexivity|]); auto.
+    destruct (String.eqb code "" && String.eqb msg "" && is_none md) eqn:E; [reflexivity|].
+    exfalso. apply (Hno code msg md). split; [reflexivity|].
+    destruct (String.eqb_spec code ""); [|tauto]. destruct (String.eqb_spec msg ""); [|tauto].
+    destruct md; [right; right; discriminate | discriminate E].
 Qed.
 
 (* the call returns in time (uses the timed model) *)
@@ -474,23 +508,52 @@ Proof.
   all: lia.
 Qed.
 
+Lemma md_eqb_refl : forall d, md_eqb d d = true.
+Proof.
+  intros [l|]; [|reflexivity]. cbn. induction l as [|[a b] l IH]; [reflexivity|].
+  cbn. unfold pair_eqb at 1. cbn. now rewrite !String.eqb_refl, IH.
+Qed.
+
+Lemma run_result_not_other : forall i, run_result i <> ROther.
+Proof.
+  intros i. unfold run_result.
+  destruct (exec_failed i).
+  - destruct (captured_stderr i =? 0); [discriminate|].
+    destruct (i_stderr i) as [|c m md]; cbn; [discriminate|].
+    destruct (String.eqb c "" && String.eqb m "" && is_none md); discriminate.
+  - destruct (i_stdout i) as [|m]; [discriminate|].
+    destruct (is_metadata (i_cmd i)); [|discriminate].
+    destruct (validate m); [destruct (String.eqb (m_name m) (i_name i))|]; discriminate.
+Qed.
+
+Lemma typed_when_no_stderr : forall i,
+  exec_failed i = true -> captured_stderr i = 0 -> run_result i = RExec.
+Proof. intros i Hf H0. unfold run_result. now rewrite Hf, H0. Qed.
+
 (* the model meets the process oracle *)
 Lemma model_p_spec : forall i, wf_p i = true -> spec_p i (model_p i) = true.
 Proof.
   intros i Hwf. unfold spec_p. rewrite (model_in_time i Hwf). cbn [andb].
-  rewrite model_p_result.
+  rewrite model_p_argv, model_p_result.
+  assert (Hargv : match (if started i then Some (cmd_arg (i_cmd i)) else None) with
+                  | Some a => String.eqb a (cmd_arg (i_cmd i)) | None => true end = true).
+  { destruct (started i); [apply String.eqb_refl | reflexivity]. }
+  rewrite Hargv. cbn [andb].
   destruct (i_file i) eqn:Hfile; try reflexivity.
   all: destruct (failing i) eqn:Hfl.
   (* failing: error kind *)
   1,3: pose proof (failing_exec_failed i Hfl) as Hef;
-       unfold error_kind_ok, run_result; rewrite Hef;
-       destruct (N.min (i_stderr_len i) cap =? 0); [reflexivity|];
-       destruct (i_stderr i) as [|code msg md]; [reflexivity|]; cbn;
-       destruct (String.eqb code "" && String.eqb msg "" && md); [reflexivity|];
-       rewrite !String.eqb_refl; reflexivity.
+       destruct (started i) eqn:Hst;
+       [ unfold error_kind_ok, run_result; rewrite Hef; unfold captured_stderr; rewrite Hst;
+         destruct (N.min (i_stderr_len i) cap =? 0); [reflexivity|];
+         destruct (i_stderr i) as [|code msg md]; [reflexivity|]; cbn;
+         destruct (String.eqb code "" && String.eqb msg "" && is_none md); [reflexivity|];
+         rewrite !String.eqb_refl, md_eqb_refl; reflexivity
+       | rewrite (typed_when_no_stderr i Hef); [reflexivity | unfold captured_stderr; now rewrite Hst] ].
   (* not failing *)
   - destruct (run_result i) eqn:Hr; try reflexivity.
     + apply run_ok_iff in Hr as (Hf & Hk & He & Ho & Hs & Hio & m & Hm & Hmeta).
+      rewrite Hf. cbn [is_none negb]. rewrite andb_true_r.
       unfold success_allowed. rewrite Hfl, Hm. cbn [negb andb].
       replace (i_stdout_len i <=? cap) with true by (symmetry; now apply N.leb_le).
       cbn [andb]. destruct (i_cmd i) eqn:Hc; cbn; try reflexivity.
@@ -499,31 +562,137 @@ Proof.
       apply String.eqb_neq in H1, H2, H3, H4. rewrite H1, H2, H3, H4.
       apply mem_str_In in H7. rewrite H7, H8, String.eqb_refl.
       destruct (m_caps m); [congruence|]. destruct (m_cvs m); [congruence|]. reflexivity.
-    + (* ROther is never produced *)
-      exfalso. unfold run_result in Hr.
-      destruct (exec_failed i).
-      * destruct (N.min (i_stderr_len i) cap =? 0); [discriminate|].
-        destruct (i_stderr i) as [|c m md]; cbn in Hr; [discriminate|].
-        destruct (String.eqb c "" && String.eqb m "" && md); discriminate.
-      * destruct (i_stdout i) as [|m]; [discriminate|].
-        destruct (is_metadata (i_cmd i)); [|discriminate].
-        destruct (validate m); [destruct (String.eqb (m_name m) (i_name i))|]; discriminate.
+    + exfalso. now apply (run_result_not_other i).
   - (* FNoExec is always failing *)
     unfold failing in Hfl. rewrite Hfile in Hfl. discriminate.
 Qed.
 
+(* ================================================================== *)
+(* (b') io.Copy into the LimitedWriter over a bytes.Buffer              *)
+(* ================================================================== *)
+Local Open Scope Z_scope.
+
+Definition all_pos (chunks : list Z) : Prop := Forall (fun nr => 0 < nr) chunks.
+
+Lemma zsum_nonneg : forall chunks, all_pos chunks -> 0 <= zsum chunks.
+Proof.
+  induction 1 as [|nr cs Hnr _ IH]; [cbn; lia|].
+  change (0 <= nr + zsum cs). lia.
+Qed.
+
+Lemma zsum_app : forall a b, zsum (a ++ b) = zsum a + zsum b.
+Proof.
+  induction a as [|x a IH]; intros b; [reflexivity|].
+  change (x + zsum (a ++ b) = x + zsum a + zsum b). rewrite IH. lia.
+Qed.
+
+(* the loop invariant, for every state the loop can be in *)
+Lemma copy_loop_spec : forall chunks rem w n,
+  all_pos chunks ->
+  let r := copy_loop rem w n chunks in
+  let R := Z.max 0 rem in
+  c_written r = w + Z.min (zsum chunks) R
+  /\ (c_err r = CNil <-> zsum chunks <= R)
+  /\ (c_err r <> CNil -> c_left r <= 0 \/ rem <= 0)
+  /\ c_left r = rem - Z.min (zsum chunks) R
+  /\ c_err r <> CUnder.
+Proof.
+  induction chunks as [|nr cs IH]; intros rem w n Hpos.
+  - cbn. split; [lia|]. split; [split; [intros _; lia | reflexivity]|].
+    split; [intros H; now elim H|]. split; [lia | discriminate].
+  - inversion Hpos as [|x l Hnr Hcs]; subst.
+    pose proof (zsum_nonneg cs Hcs) as Hs.
+    change (zsum (nr :: cs)) with (nr + zsum cs).
+    cbn [copy_loop]. unfold lw_write. destruct (Z.leb_spec rem 0) as [Hle|Hgt].
+    + cbn. split; [lia|]. split; [split; [discriminate | lia]|].
+      split; [intros _; lia|]. split; [lia | discriminate].
+    + cbn [buffer_w u_n u_err w_n w_err].
+      destruct (Z.gtb_spec nr rem) as [Hbig|Hfit].
+      * (* short write: the slice was cut to what remains *)
+        replace (rem =? nr) with false by (symmetry; apply Z.eqb_neq; lia).
+        cbn. split; [lia|]. split; [split; [discriminate | lia]|].
+        split; [intros _; lia|]. split; [lia | discriminate].
+      * rewrite Z.eqb_refl.
+        specialize (IH (rem - nr) (w + nr) (n + 1)%N Hcs). cbn zeta in IH.
+        destruct IH as (H1 & H2 & H3 & H4 & H5).
+        split; [rewrite H1; lia|].
+        split; [split; [intros E; apply H2 in E; lia | intros E; apply H2; lia]|].
+        split; [intros E; apply H3 in E; lia|].
+        split; [rewrite H4; lia | exact H5].
+Qed.
+
+(* what the host holds after copying a stream of the plugin: never more than the
+   cap; everything when the stream is within the cap; exactly the cap, and an
+   error, when it is not - whatever the chunking *)
+Lemma copy_cap : forall L chunks,
+  all_pos chunks ->
+  let r := model_c (mk_cinput L chunks) in
+  c_written r <= Z.max 0 L
+  /\ c_written r = Z.min (zsum chunks) (Z.max 0 L)
+  /\ (c_err r = CNil <-> zsum chunks <= Z.max 0 L)
+  /\ c_left r = L - c_written r.
+Proof.
+  intros L chunks Hpos. cbn zeta. unfold model_c. cbn [ci_limit ci_chunks].
+  destruct (copy_loop_spec chunks L 0 0%N Hpos) as (H1 & H2 & _ & H4 & _).
+  pose proof (zsum_nonneg chunks Hpos). repeat split; try lia; try tauto.
+Qed.
+
+Definition copy_fails (L : Z) (chunks : list Z) : bool :=
+  negb (cerr_eqb (c_err (model_c (mk_cinput L chunks))) CNil).
+
+Lemma cerr_eqb_nil : forall e, cerr_eqb e CNil = true <-> e = CNil.
+Proof. intros []; cbn; split; congruence. Qed.
+
+Lemma copy_fails_iff : forall L chunks, all_pos chunks ->
+  copy_fails L chunks = (Z.max 0 L <? zsum chunks).
+Proof.
+  intros L chunks Hpos. unfold copy_fails.
+  destruct (copy_cap L chunks Hpos) as (_ & _ & H & _). cbn zeta in H.
+  destruct (Z.ltb_spec (Z.max 0 L) (zsum chunks)) as [Hlt|Hge].
+  - apply negb_true_iff. destruct (cerr_eqb _ CNil) eqn:E; [|reflexivity].
+    apply cerr_eqb_nil in E. apply H in E. lia.
+  - apply negb_false_iff. apply cerr_eqb_nil. apply H. exact Hge.
+Qed.
+
+Lemma wf_c_all_pos : forall c, wf_c c = true -> all_pos (ci_chunks c).
+Proof.
+  intros c H. unfold wf_c in H. rewrite forallb_forall in H.
+  apply Forall_forall. intros x Hx. apply H in Hx. now apply Z.ltb_lt.
+Qed.
+
+Lemma model_c_spec : forall c, wf_c c = true ->
+  spec_c c (model_c c) (c_written (model_c c)) = true.
+Proof.
+  intros [L chunks] Hwf. pose proof (wf_c_all_pos _ Hwf) as Hpos. cbn [ci_chunks] in Hpos.
+  destruct (copy_cap L chunks Hpos) as (H1 & H2 & H3 & _). cbn zeta in *.
+  unfold spec_c. cbn [ci_limit ci_chunks].
+  set (r := model_c (mk_cinput L chunks)) in *.
+  replace (c_written r <=? Z.max 0 L) with true by (symmetry; apply Z.leb_le; lia).
+  rewrite Z.eqb_refl. cbn [andb].
+  destruct (Z.ltb_spec (Z.max 0 L) (zsum chunks)) as [Hlt|Hge].
+  - replace (c_written r =? Z.max 0 L) with true by (symmetry; apply Z.eqb_eq; lia).
+    rewrite andb_true_r. apply negb_true_iff.
+    destruct (cerr_eqb (c_err r) CNil) eqn:E; [|reflexivity].
+    apply cerr_eqb_nil in E. apply H3 in E. lia.
+  - replace (c_written r =? zsum chunks) with true by (symmetry; apply Z.eqb_eq; lia).
+    rewrite andb_true_r. apply cerr_eqb_nil. apply H3. exact Hge.
+Qed.
+
+Local Open Scope N_scope.
+
 Lemma model_spec_ok : forall i, wf i = true -> spec_ok i (model i) = true.
 Proof.
-  intros [p|w] H; cbn in *; [now apply model_p_spec | now apply model_w_spec].
+  intros [p|w|c] H; cbn in *; [now apply model_p_spec | now apply model_w_spec | now apply model_c_spec].
 Qed.
 
 (* the executor error covers every way the process can fail to finish cleanly,
    and then the result is never a success, whatever stdout says *)
 Lemma no_success_when : forall i,
   i_exit i <> 0 \/ proc_killed i = true \/ cap < i_stdout_len i \/ cap < i_stderr_len i
-  \/ io_expired (host_of i) (beh_of i) = true \/ i_file i <> FExec ->
+  \/ io_expired (host_of i) (beh_of i) = true \/ i_file i <> FExec \/ i_deadline i = Some 0 ->
   p_result (model_p i) <> ROk.
 Proof.
   intros i H Hok. apply model_ok_iff in Hok as (Hf & Hk & He & Ho & Hs & Hio & _).
-  destruct H as [H|[H|[H|[H|[H|H]]]]]; try congruence; lia.
+  apply started_iff in Hf as [Hf Hd].
+  destruct H as [H|[H|[H|[H|[H|[H|H]]]]]]; try congruence; lia.
 Qed.
